@@ -517,6 +517,19 @@ def _decode_verdict(data: bytes, exp: List[Dict[str, Any]], stub_uuid: bool) -> 
 _RT = [0]
 
 
+def _table_strings(exp: List[Dict[str, Any]]) -> int:
+    """Upper bound of the number of distinct strings the binary string table holds (types, names, attribute names, scalar strings)."""
+    pool = set()
+    for n in exp:
+        pool.add(n['type'])
+        pool.add(n['name'])
+        for a in n['attrs']:
+            pool.add(a[0])
+            if a[1] == 'STRING' and not a[2]:
+                pool.update(v for v in a[3] if isinstance(v, str))
+    return len(pool)
+
+
 def roundtrip(run, root: Any, exp: List[Dict[str, Any]], feat: Dict[str, Any], cfg: Dict[str, Any], case: Dict[str, Any],
               engine: str) -> Any:
     """Export under cfg, parse, compare with exp. Returns the parsed root when everything agreed, else None."""
@@ -546,6 +559,10 @@ def roundtrip(run, root: Any, exp: List[Dict[str, Any]], feat: Dict[str, Any], c
             return None
         if binary and cfg['version'] < 3 and feat['time'] and isinstance(exc, ValueError) and 'TIME' in str(exc):
             run.count('time_refused_before_v3')
+            return None
+        if binary and 2 <= cfg['version'] <= 4 and _table_strings(exp) > 32767:
+            # the string table index of versions 2-4 is a signed 16-bit number: such a graph is one the version cannot express
+            run.count('string_table_overflow_refused')
             return None
         run.violation(f'{label}: export raised {type(exc).__name__}: {exc}', witness=dict(w, traceback=traceback.format_exc()[-1500:]),
                       key=classify('export', exc, None, w), engine=engine, case=case)
@@ -829,6 +846,10 @@ def fixed_graphs() -> List[Tuple[str, Dict[str, Any]]]:
         ('big-arrays', {'elems': [_el(0, [['ints', 'INT', True, list(range(-35000, 35000))], ['text', 'STRING', False, 'xy' * 35000],
                                           ['blob', 'BINARY', False, '00ff' * 40000], ['after', 'INT', False, 7]])]}),
         ('many-strings', {'elems': [_el(0, [['names', 'STRING', True, [f's{k}' for k in range(66000)]], ['after', 'STRING', False, 's1']])]}),
+        # more distinct table strings (element names) than a signed 16-bit index can count, fewer than an unsigned one can:
+        # versions 2-4 cannot express this graph (they refuse it), 1 and 5 can
+        ('string-table-over-32767', {'elems': [_el(0, [['kids', 'ELEMENT', True, list(range(1, 33201))]], name='zz_root')]
+                                              + [_el(k, [], name=f'kid{k:05d}') for k in range(1, 33201)]}),
         ('long-chain', {'elems': [_el(k, [['next', 'ELEMENT', False, k + 1]] if k < 299 else [['end', 'BOOL', False, True]]) for k in range(300)]}),
     ]
 
@@ -1036,7 +1057,7 @@ def main(run, shard=(0, 1)) -> None:
         name_attr_case(run)
     probe.report(run)
     probe.check_reached(run)
-    run.require('default_argument_exports', 'legacy_version_0_roundtrips', 'binary_parses', 'kv2_parses', 'real_file_roundtrips', 'repeated_exports', 'graphs_re_exported_after_edits', 'independent_decodes_agree', 'to_kv1_calls', 'to_kv1_after_wire',
+    run.require('default_argument_exports', 'legacy_version_0_roundtrips', 'string_table_overflow_refused', 'binary_parses', 'kv2_parses', 'real_file_roundtrips', 'repeated_exports', 'graphs_re_exported_after_edits', 'independent_decodes_agree', 'to_kv1_calls', 'to_kv1_after_wire',
                 'graphs_with_sharing', 'graphs_with_cycle', 'graphs_with_self_loop', 'graphs_with_nameless_elements', 'stub_occurrences', 'null_in_array_occurrences',
                 'empty_array_occurrences', 'scalar_matrix_occurrences', 'name_needs_escape_occurrences',
                 'unicode_string_array_occurrences', 'unicode_type_occurrences', 'ascii_mode_refused_non_ascii',
